@@ -436,6 +436,7 @@ class Walker:
         assigned = sorted(_assigned_names(s.body) | (_target_names(target) if target is not None else set()))
         n = next(self._phi)
         self.items[n] = itr
+        entry = {a: st.env.get(a) for a in assigned}       # values of the carried names before the loop
         body_st = Path()
         body_st.env = dict(st.env)
         body_st.guards = []
@@ -453,7 +454,7 @@ class Walker:
             p.end = status if status is not None else ('fall', None)
             body.append(p)
         st.effects.append(Eff('loop', s, sub={'kind': kind, 'target': target, 'iter': itr, 'test': test_e,
-                                              'body': body, 'phi': n, 'carried': assigned}, depth=d))
+                                              'body': body, 'phi': n, 'carried': assigned, 'entry': entry}, depth=d))
         for a in assigned:
             st.env[a] = ast.Name(id='%s@phi%dout' % (a, n), ctx=ast.Load())
         st.heap.clear()
